@@ -240,15 +240,21 @@ func (conn *Conn) send(call *Call) {
 		ctx.Upgrade, _ = call.upgrade.Marshal(upgradeBuffer)
 	}
 	ctx.ServiceMethod = call.ServiceMethod
+	stream := call.upgrade.Stream
 	err := conn.codec.WriteRequest(&ctx, call.Args)
 	if err != nil {
+		// The call may already have been completed (and recycled) by the reader:
+		// removal from the pending table is what entitles a path to complete it.
 		conn.mutex.Lock()
-		delete(conn.pending, seq)
-		if call.upgrade.Stream == openStream {
-			delete(conn.streams, seq)
+		owned := isStreaming || conn.pending[seq] == call
+		if owned {
+			delete(conn.pending, seq)
+			if stream == openStream {
+				delete(conn.streams, seq)
+			}
 		}
 		conn.mutex.Unlock()
-		if call != nil {
+		if owned {
 			call.Error = err
 			call.done()
 		}
@@ -283,7 +289,8 @@ func (conn *Conn) recv() {
 	if err == io.EOF {
 		err = ErrShutdown
 	}
-	for _, call := range conn.pending {
+	for seq, call := range conn.pending {
+		delete(conn.pending, seq)
 		call.Error = err
 		call.done()
 	}
